@@ -89,6 +89,10 @@ pub fn handle(ctx: &mut LcdCtx, cmd: &str, req: &Value) -> Result<Value, String>
                     lcd.write(0x2002, base);
                 }
             }
+            // optionally switch one chip off again (its own chip-select address)
+            if let Some(off) = req.get("off_chip").and_then(|v| v.as_u64()) {
+                lcd.write(0x2000 | if off == 0 { 0x8 } else { 0x4 }, 0x3E);
+            }
             let baseline = lcd.display_buffer();
             for chip in 0..2u32 {
                 let cs = if chip == 0 { 0x8 } else { 0x4 };
